@@ -470,7 +470,8 @@ def run_check(pid: str, tier: str, seed: int, replay: str | None = None) -> int:
         if sig in reported_sigs:
             continue
         reported_sigs.add(sig)
-        small, small_obs = shrink_case(prop, cases[i], clause)
+        # shrinking re-runs the implementation many times: do it for the first two signatures only
+        small, small_obs = shrink_case(prop, cases[i], clause) if nrep < 2 else (cases[i], obs[i])
         fn = write_replay(pid, seed, nrep, {
             "property": pid, "kind": "oracle-failure", "clause": clause, "message": msg, "signature": sig,
             "case": small, "impl_observation": small_obs if small_obs is not None else obs[i],
